@@ -236,6 +236,29 @@ for _p, _t in _EXTRA5.items():
         t, n, te, r = CLAIMS[_p]
         CLAIMS[_p] = (t + _t, n, te, r)
 
+# Sixth round of seeded changes (DESIGN §8 round 6).
+_EXTRA6 = {
+ "C01": " Sixth round: (R-CAN-5) a parallel stage that stops early on cancellation turns it into an error; R-CACHE-3 registered.",
+ "C02": " Sixth round: (R-MEMO-1) a process-lifetime memo is keyed by everything its value is computed from (the JSON path cache filed ParsePath(name) under ToUpper(name)); (R-EXT-1) every comparison with a file-extension constant sees a lower-cased value (CREATE TABLE and the loaders pick the format by the same rule). Genuine defect repaired: every JSON Lines file csvq wrote ended in an empty line that its own loader rejects.",
+ "C03": " Sixth round: R-REL-3 clause (c): the empty step is the only way a recursive CTE stops with success; (R-SCP-10) a pooled scope is fully reset on every path of Clear; (R-MEMO-2) a per-scope memo is inherited only together with the fields its entries were computed from.",
+ "C05": " Sixth round: R-CACHE-4 registered (the reload guard remembers the update lock, so a second data-changing statement does not re-read the file and drop the first one's edits).",
+ "C06": " Sixth round: (R-CONV-3) the configured datetime formats are tried before any return of StrToTime, and a configured format that parses wins.",
+ "C07": " Sixth round: R-PAR-10 / R-PAR-13 registered (ORDER BY sorts with one stable call; the worker count only splits work).",
+ "C09": " Sixth round: (R-SET-2) both operands of a set operation are evaluated on every success path, so `… EXCEPT SELECT … FROM b FOR UPDATE` locks b even when the left side is empty.",
+ "C10": " Sixth round: (R-CAN-5) a cancelled parallel conversion cannot hand COMMIT a half-filled result with a nil error.",
+ "C11": " Sixth round: R-LOCK-2 registered (a lock file created and then given up is removed); R-CAN-5 registered.",
+ "C12": " Sixth round: (R-PAR-16) a goroutine never registers itself with the WaitGroup its spawner waits on; (R-MEMO-1) process-lifetime memos are functions of their keys; (R-CAN-5).",
+ "C13": " Sixth round: (R-PAR-16) Add happens in the spawner.",
+ "C14": " Sixth round: (R-MEMO-1) the compiled-regexp cache and the other package-level memos cannot hand one caller what another caller's arguments produced; (R-SCP-10) pooled scopes come back empty.",
+ "C15": " Sixth round: (R-MEMO-2) a scope with its own block chain does not share a memo computed from the parent's chain (a function declared in a function body shadows the outer one); (R-SCP-10).",
+ "C17": " Sixth round: R-SRT-1 registered (the order laws of SortValue.Less are what the ORDER BY of an analytic clause relies on).",
+ "C20": " Sixth round: R-LOCK-4 (the table is opened after its lock is held, so a waiter never reads the pre-commit inode) and R-SET-2 registered.",
+}
+for _p, _t in _EXTRA6.items():
+    if _p in CLAIMS:
+        t, n, te, r = CLAIMS[_p]
+        CLAIMS[_p] = (t + _t, n, te, r)
+
 # Substrate rules (rules/zz_substrate.go): run with every property whose observable behaviour they protect.
 _SUBSTRATE = " Substrate (run with every value-level property, DESIGN §2.11): R-POOL-1/2/3/5 (no value object is returned to its pool while something still refers to it, none twice), R-PAR-1 (no unsynchronised conflicting access between worker goroutines), R-ALIAS-1 (no shared spare capacity), R-ISO-4 / R-AST-1 (no in-place write to cells or syntax trees that another holder shares)."
 for _p in ["C01","C02","C03","C04","C05","C06","C07","C08","C12","C13","C14","C15","C16","C17","C19","C20"]:
